@@ -1,5 +1,6 @@
 import Dbus.Proofs.Bus.Limits
 import Dbus.Proofs.Bus.Timed
+import Dbus.Proofs.Bus.GenericA
 /-
   C09 — only the addressee of a pending call can answer it, once.
 -/
@@ -352,6 +353,66 @@ theorem no_reply_timeout_nothing_expires (tbl : List IfaceRow) (t : TBus) (dt : 
     apply List.filter_eq_self.mpr; intro p _; simp
   rw [h1, h2]
   exact ⟨rfl, rfl⟩
+
+/-! ### the same over whole histories with activation and time -/
+
+/-- what the clock layer keeps in every reachable state: one stamp per pending reply, in step with the
+    list of pending replies, and no slot recorded twice -/
+def TimedInv (t : TBus) : Prop := t.slotBorn.map (·.1) = t.a.core.pending ∧ t.a.core.pending.Nodup
+
+theorem track_fireActs (tbl : List IfaceRow) : ∀ (ns : List Bytes) (t : TBus) (acc : List ATx),
+    t.slotBorn.map (·.1) = t.a.core.pending →
+    (fireActs tbl ns t acc).1.slotBorn.map (·.1) = (fireActs tbl ns t acc).1.a.core.pending
+  | [], _, _, h => h
+  | n :: ns, t, acc, _ => by
+    unfold fireActs
+    exact track_fireActs tbl ns _ _ (next_slots_track t _)
+
+theorem timedInv_step (tbl : List IfaceRow) (t : TBus) (ev : TEv) (h : TimedInv t) : TimedInv (stepT tbl t ev).1 := by
+  refine ⟨?_, lvT_step pend_leaves tbl t ev h.2⟩
+  cases ev with
+  | ev e => exact next_slots_track t _
+  | advance dt =>
+    simp only [stepT]
+    exact track_fireActs tbl _ _ _ (next_slots_track _ _)
+
+/-- in every state reachable with activation and time, from a bus nobody has connected to yet -/
+theorem timedInv_run (tbl : List IfaceRow) (evs : List TEv) (t0 : TBus) (h0 : TimedInv t0) : TimedInv (runT tbl t0 evs).1 := by
+  unfold runT
+  suffices hh : ∀ (evs : List TEv) (acc : TBus × List (List ATx)), TimedInv acc.1 →
+      TimedInv (evs.foldl (fun (acc : TBus × List (List ATx)) ev => ((stepT tbl acc.1 ev).1, acc.2 ++ [(stepT tbl acc.1 ev).2])) acc).1 from
+    hh evs (t0, []) h0
+  intro evs
+  induction evs with
+  | nil => intro acc h; exact h
+  | cons ev evs ih => intro acc h; simp only [List.foldl_cons]; exact ih _ (timedInv_step tbl acc.1 ev h)
+
+theorem nodup_keys_unique : ∀ (l : List (Pending × Nat)) (p : Pending) (b b' : Nat), (l.map (·.1)).Nodup →
+    (p, b) ∈ l → (p, b') ∈ l → b' = b
+  | [], _, _, _, _, h, _ => by cases h
+  | e :: l, p, b, b', hn, h1, h2 => by
+    simp only [List.map_cons, List.nodup_cons] at hn
+    rcases List.mem_cons.mp h1 with rfl | h1' <;> rcases List.mem_cons.mp h2 with h2e | h2'
+    · exact (Prod.mk.inj h2e).2
+    · exact absurd (List.mem_map.mpr ⟨(p, b'), h2', rfl⟩) hn.1
+    · subst h2e; exact absurd (List.mem_map.mpr ⟨(p, b), h1', rfl⟩) hn.1
+    · exact nodup_keys_unique l p b b' hn.2 h1' h2'
+
+/-- a stamp is the only one recorded for its slot -/
+theorem stamp_unique (t : TBus) (h : TimedInv t) (p : Pending) (b b' : Nat) (h1 : (p, b) ∈ t.slotBorn) (h2 : (p, b') ∈ t.slotBorn) :
+    b' = b :=
+  nodup_keys_unique t.slotBorn p b b' (by rw [h.1]; exact h.2) h1 h2
+
+/-- **In every reachable state, a call younger than the reply timeout survives the passing of time**:
+    `young_call_survives` with its side conditions discharged by the invariant. -/
+theorem young_call_survives_reachable (tbl : List IfaceRow) (evs : List TEv) (t0 : TBus) (h0 : TimedInv t0) (T dt : Nat)
+    (hT : (runT tbl t0 evs).1.replyTimeout = some T) (p : Pending) (b : Nat)
+    (hb : (p, b) ∈ (runT tbl t0 evs).1.slotBorn) (hyoung : (runT tbl t0 evs).1.now + dt < b + T) :
+    ∃ x : ATx, (stepT tbl (runT tbl t0 evs).1 (.advance dt)).2.head? = some x ∧ p ∈ x.t.bus.pending := by
+  have hi := timedInv_run tbl evs t0 h0
+  have hp : p ∈ (runT tbl t0 evs).1.a.core.pending := by
+    rw [← hi.1]; exact List.mem_map.mpr ⟨(p, b), hb, rfl⟩
+  exact young_call_survives tbl _ T dt hT p b hp (fun b' hb' => stamp_unique _ hi p b b' hb hb') hyoung
 
 /-- the hypotheses are met: a call recorded at time 0 under an 800 s timeout survives 700 s and is gone after 900 s -/
 example : let t : TBus := { a := { core := { pending := [slot 1 2 7] } }, replyTimeout := some 800000, slotBorn := [(slot 1 2 7, 0)] }
